@@ -33,7 +33,7 @@ ASSUMPTIONS = [
     "TZ=UTC during the check (offset correctness is C16)",
 ]
 BUDGET = {"quick": (600, 4), "thorough": (100000, 16)}
-REQUIRED = ["special_text", "line_separator_text", "size0", "previous_path", "reference", "dir_record", "roothash", "authors", "chain", "history_manifests", "chain_nonunique_or_gapped", "collection_files"]
+REQUIRED = ["special_text", "line_separator_text", "size0", "previous_path", "reference", "dir_record", "roothash", "authors", "chain", "history_manifests", "chain_nonunique_or_gapped", "collection_files", "bulk_manifest", "bulk_history"]
 
 CLI = refhash.CLI_FORMATS
 _HEXLEN = {"md5": 32, "sha1": 40, "xxh128": 32, "xxh3": 16, "xxh64": 16}
@@ -102,8 +102,35 @@ HCFG = {"kinds": ["create"] * 5 + ["create_sf"] * 2 + ["flatten"] * 2 + ["put_ne
         "flags": {"-n": 0.2, "-dr": 0.3}}
 
 
+@st.composite
+def _bulk_case(draw):
+    """an object graph with hundreds of records (written manifest far larger than the 32 KiB block lxml reads at a
+    time); the records are derived deterministically from the drawn seed"""
+    base = draw(_object_case())
+    base["bulk"] = {"n": draw(st.integers(150, 700)), "seed": draw(st.integers(0, 2**32)), "pad": draw(st.integers(0, 40))}
+    return base
+
+
+def _bulk_records(spec):
+    import random
+
+    rnd = random.Random(spec["seed"])
+    recs = []
+    for i in range(spec["n"]):
+        fm = rnd.sample(CLI, rnd.randint(1, 3))
+        name = "bulk/%s%05d_%s.mov" % ("x" * spec["pad"], i, "".join(rnd.choice("abcdefghijklmnopqrstuvwxyzäé ü&<") for _ in range(rnd.randint(3, 24))))
+        ents = []
+        for f in fm:
+            d = refhash.c4_encode_int(rnd.getrandbits(512)) if f == "c4" else "%0*x" % (_HEXLEN[f], rnd.getrandbits(4 * _HEXLEN[f]))
+            ents.append({"fmt": f, "digest": d, "date": "2021-03-04T05:06:07.%06d" % rnd.randint(0, 999999), "action": rnd.choice(["original", "verified", "failed"])})
+        recs.append({"dir": False, "path": name.strip(), "mtime": "2020-02-02T02:02:02", "prev": None, "size": rnd.randint(0, 10**9), "entries": ents})
+    return recs
+
+
 def strategy(tier):
-    return st.one_of(_object_case(), _object_case(), _object_case(), hist.scenarios(HCFG).map(lambda s: dict(s, kind="history")))
+    return st.one_of(_object_case(), _object_case(), _object_case(), _object_case(), _object_case(), _bulk_case(),
+                     hist.scenarios(HCFG).map(lambda s: dict(s, kind="history")), hist.scenarios(HCFG).map(lambda s: dict(s, kind="history")),
+                     st.tuples(hist.scenarios(dict(HCFG, max_steps=3)), st.integers(1, 2**31)).map(lambda t: dict(t[0], kind="history", bulk_files=t[1])).filter(lambda s: "bulk 0" not in s["tree"]))
 
 
 def _norm(x):
@@ -125,6 +152,10 @@ def _is_special(s):
 
 
 def run_object(scn, ctx):
+    if scn.get("bulk"):
+        seen = {r["path"] for r in scn["records"]}
+        scn = dict(scn, records=scn["records"] + [r for r in _bulk_records(scn["bulk"]) if r["path"] not in seen])
+        ctx.event("bulk_manifest")
     from ascmhl import chain_xml_parser, hashlist_xml_parser
     from ascmhl.chain import MHLChain, MHLChainGeneration
     from ascmhl.hashlist import (MHLAuthor, MHLCreatorInfo, MHLHashEntry, MHLHashList, MHLMediaHash, MHLProcess, MHLProcessInfo, MHLTool)
@@ -290,6 +321,13 @@ def run_history(scn, ctx):
 
     with World("c10h") as w:
         hist.setup_world(w, scn)
+        if scn.get("bulk_files"):
+            import random
+
+            rnd = random.Random(scn["bulk_files"])
+            for i in range(260 + scn["bulk_files"] % 150):
+                w.put("%s/bulk %d/%s_%05d %s.mov" % (scn["root"], i % 3, "y" * rnd.randint(0, 25), i, "".join(rnd.choice("abc é&<") for _ in range(rnd.randint(1, 15))).strip() or "z"), "b%d" % i)
+            ctx.event("bulk_history")
         for step in scn["steps"]:
             hist.apply_step(w, scn, step)
         n = 0
